@@ -266,13 +266,28 @@ def run_case(case, env, res):
                 errs.append(("frame.render_size", tuple(frame.render_size), (PW, PH)))
             res.count("surface Renderable.render")
         else:  # iterator
-            subj = Subj(3, 5, rsize, case["kind"])
-            it = RenderIterator(subj, None, padding, 1, False)
+            # the padding / the render size reach the iterator through its constructor or
+            # through its setters, in either order, before or after frames were produced
+            route = case.get("route", "ctor")
+            from term_image.geometry import Size as GSize
+            from term_image.padding import ExactPadding as _EP
+
+            other_size = (W % 5 + 1, H % 3 + 2)
+            subj = Subj(6, 5, rsize if route in ("ctor", "pad_after") else other_size, case["kind"])
+            it = RenderIterator(subj, None, padding if route in ("ctor", "size_after") else _EP(1, 0, 2, 1), -1, case["tag"] % 2 == 0)
             k = case["tag"] % 3
             frame = None
-            for _ in range(k + 1):
-                frame = next(it)
+            if route == "pad_then_size":
+                it.set_padding(padding)
+            for _ in range(k):
+                next(it)
+            if route in ("size_after", "pad_then_size"):
+                it.set_render_size(GSize(W, H))
+            elif route == "pad_after":
+                it.set_padding(padding)
+            frame = next(it)
             it.close()
+            res.count("iterator route " + route)
             inner = synth_render(case["kind"], W, H, frame.number * 3)
             padded = frame.render_output
             if tuple(frame.render_size) != (PW, PH):
@@ -514,6 +529,8 @@ def gen(rnd, persona):
         hd = rnd.choice([rnd.randint(1, 10), 0, -rnd.randint(1, 6), rnd.randint(1, 10)])
         pad = dict(type="aligned", width=wd, height=hd, h=rnd.randrange(3), v=rnd.randrange(3), fill=fill)
     case["pad"] = pad
+    if surface == "iterator":
+        case["route"] = rnd.choice(["ctor", "size_after", "pad_after", "pad_then_size"])
     return case
 
 
